@@ -9,8 +9,8 @@
 (* after the fact, as a prophecy that keeps the search finite).  Between   *)
 (* its call and its ret every operation takes effect atomically at some    *)
 (* point (internal step Lin) according to the sequential CollFS contract.  *)
-(* Keep writes (putb), race-detector reports (race) and a proven deadlock  *)
-(* (deadlock) are events too; the last two are not actions of the contract.*)
+(* Keep writes (putb) and a proven deadlock (deadlock / hang) are events    *)
+(* too; the latter are not actions of the contract.                        *)
 (*                                                                         *)
 (* Clauses of the statement (properties.jsonl C13):                        *)
 (*  "no operation deadlocks"             no action for event "deadlock"    *)
@@ -35,23 +35,25 @@
 (*                                       CollFS!Read; a saved content that *)
 (*                                       was overwritten before the save   *)
 (*                                       began is not in the interval      *)
-(*  a failed save                        only if a Keep write failed       *)
-(*                                       between its call and its return   *)
-(*  absence of race-detector reports     no action for event "race" (the   *)
-(*                                       check emits it only for reports   *)
-(*                                       whose racing accesses are both in *)
-(*                                       the anchored files)               *)
+(*  a failed save                        only if a Keep write failed since *)
+(*                                       a save last returned successfully *)
+(*  The directory STRUCTURE of a saved manifest must be the tree at one    *)
+(*  point between call and return ("never loses": an entry missing from    *)
+(*  every such point is lost); contents need not be from one instant.      *)
+(*  race-detector reports                not in the statement: reported as *)
+(*                                       DRIFT by checks/C13.py, no event  *)
 (***************************************************************************)
 EXTENDS CollFSStore, TraceIO
 
 VARIABLES pend,     \* [call id -> [i (line of the call record, which carries the results), lin, from, snap, f0]]
           chist,    \* per inode: sequence of all contents it has had
-          fails     \* number of failed Keep writes so far
+          fails,    \* number of failed Keep writes so far
+          okfails   \* value of `fails` when a save last returned successfully (0 at the start)
 
-cvars2 == <<pend, chist, fails>>
+cvars2 == <<pend, chist, fails, okfails>>
 concvars == <<fsvars, svars, cvars2>>
 
-ConcInit == pend = <<>> /\ chist = << <<>> >> /\ fails = 0
+ConcInit == pend = <<>> /\ chist = << <<>> >> /\ fails = 0 /\ okfails = 0
 
 Flags(e) == [acc |-> e.acc, cr |-> e.cr, ex |-> e.ex, tr |-> e.tr, ap |-> e.ap]
 
@@ -84,40 +86,6 @@ NextHist == [i \in 1 .. Len(nodes') |->
                ELSE chist[i]]
 
 E(id) == Trace[pend[id].i]          \* the call record of a pending call (kept out of the state)
-
-Call(id, i) ==
-    /\ id \notin DOMAIN pend
-    /\ pend' = (id :> [i |-> i, lin |-> FALSE, snap |-> {}, f0 |-> fails,
-                       from |-> IF Trace[i].op = "marshal" THEN [j \in 1 .. Len(nodes) |-> Len(chist[j])] ELSE <<>>]) @@ pend
-    /\ UNCHANGED <<fsvars, svars, chist, fails>>
-
-Lin(id) ==
-    /\ id \in DOMAIN pend /\ ~pend[id].lin
-    /\ IF E(id).op = "marshal"
-       THEN /\ pend' = [pend EXCEPT ![id].lin = TRUE, ![id].snap = ListingI(1, <<>>)]
-            /\ UNCHANGED <<fsvars, chist>>
-       ELSE /\ Apply(E(id))
-            /\ pend' = [pend EXCEPT ![id].lin = TRUE]
-            /\ chist' = NextHist
-    /\ UNCHANGED <<svars, fails>>
-
-SavedContentOK(p, m) ==
-    \A s \in p.snap : s[2] = "f" =>
-        LET i == s[3]
-            lo == IF i <= Len(p.from) THEN p.from[i] ELSE 1 IN
-        \E k \in lo .. Len(chist[i]) : chist[i][k] = MCat(m, s[1], 1, 1)
-
-Ret(id) ==
-    /\ id \in DOMAIN pend /\ pend[id].lin
-    /\ LET p == pend[id]  e == E(id) IN
-       e.op = "marshal" =>
-         IF e.ok
-         THEN /\ e.m.gok /\ BlocksOK(e.m) /\ SemOK(e.m)
-              /\ {<<x[1], x[2]>> : x \in MListing(e.m)} = {<<s[1], s[2]>> : s \in p.snap}
-              /\ SavedContentOK(p, e.m)
-         ELSE fails > p.f0
-    /\ pend' = [x \in (DOMAIN pend) \ {id} |-> pend[x]]
-    /\ UNCHANGED <<fsvars, svars, chist, fails>>
 
 -----------------------------------------------------------------------------
 (* Search reduction (sound and complete).  Linearisation points can always be  *)
@@ -162,8 +130,56 @@ Burst(y) == IF y \notin DOMAIN pend THEN {}
             ELSE Closure((IF pend[y].lin THEN {} ELSE {y})
                          \cup (IF IsM(E(y)) THEN {x \in Unlin : Changing(E(x))} ELSE {}))
 
+
+(* Only what the statement asks for is judged exactly.  The result of an OBSERVING call (stat,     *)
+(* size, readdir) and the ERROR result of a directory-level call (open, mkdir, rename, remove) are  *)
+(* judged exactly only if no conflicting call (Dep, below) was in progress at any time during the   *)
+(* call; otherwise any result is accepted (`ovl`): the statement does not promise an atomic view of  *)
+(* a shared directory or of a size under concurrent change.  Data (read), successful structural     *)
+(* calls, the quiescent tree and saved manifests stay exact.                                        *)
+Call(id, i) ==
+    /\ id \notin DOMAIN pend
+    /\ LET clash == {x \in DOMAIN pend : Dep(E(x), Trace[i])}
+           rec == [i |-> i, lin |-> FALSE, snap |-> {}, f0 |-> fails, ovl |-> clash # {},
+                   from |-> IF Trace[i].op = "marshal" THEN [j \in 1 .. Len(nodes) |-> Len(chist[j])] ELSE <<>>] IN
+       pend' = (id :> rec) @@ [x \in DOMAIN pend |-> IF x \in clash THEN [pend[x] EXCEPT !.ovl = TRUE] ELSE pend[x]]
+    /\ UNCHANGED <<fsvars, svars, chist, fails, okfails>>
+
+Relaxed(e) == \/ e.op \in {"stat", "size", "readdir"}
+              \/ (e.op \in {"open", "mkdir", "rename", "remove", "removeall"} /\ ~e.ok)
+
+Lin(id) ==
+    /\ id \in DOMAIN pend /\ ~pend[id].lin
+    /\ IF E(id).op = "marshal"
+       THEN /\ pend' = [pend EXCEPT ![id].lin = TRUE, ![id].snap = ListingI(1, <<>>)]
+            /\ UNCHANGED <<fsvars, chist>>
+       ELSE /\ \/ Apply(E(id))
+               \/ pend[id].ovl /\ Relaxed(E(id)) /\ UNCHANGED fsvars       \* any result, no effect
+            /\ pend' = [pend EXCEPT ![id].lin = TRUE]
+            /\ chist' = NextHist
+    /\ UNCHANGED <<svars, fails, okfails>>
+
+SavedContentOK(p, m) ==
+    \A s \in p.snap : s[2] = "f" =>
+        LET i == s[3]
+            lo == IF i <= Len(p.from) THEN p.from[i] ELSE 1 IN
+        \E k \in lo .. Len(chist[i]) : chist[i][k] = MCat(m, s[1], 1, 1)
+
+Ret(id) ==
+    /\ id \in DOMAIN pend /\ pend[id].lin
+    /\ LET p == pend[id]  e == E(id) IN
+       e.op = "marshal" =>
+         IF e.ok
+         THEN /\ SemOK(e.m)       \* ("loads cleanly"; grammar and locator provenance are C09's, reported as drift here)
+              /\ {<<x[1], x[2]>> : x \in MListing(e.m)} = {<<s[1], s[2]>> : s \in p.snap}
+              /\ SavedContentOK(p, e.m)
+         ELSE fails > okfails   \* some Keep write failed since a save last succeeded (errors may be reported late)
+    /\ okfails' = IF E(id).op = "marshal" /\ E(id).ok THEN fails ELSE okfails
+    /\ pend' = [x \in (DOMAIN pend) \ {id} |-> pend[x]]
+    /\ UNCHANGED <<fsvars, svars, chist, fails>>
+
 PutBConc(ok) == /\ fails' = IF ok THEN fails ELSE fails + 1
-                /\ UNCHANGED <<fsvars, svars, pend, chist>>
+                /\ UNCHANGED <<fsvars, svars, pend, chist, okfails>>
 
 (* whole-tree observation while no call is in progress *)
 QuietSnap(ents, total) == pend = <<>> /\ Snap(ents, total) /\ UNCHANGED <<svars, cvars2>>
